@@ -175,6 +175,79 @@ def toCow (s : List Char) : List Char :=
     else rest.takeWhile (· ≠ '"')
   | _ => s
 
+/-! ### `Unquote` as the iterator it is: any number of `next()` calls, then `to_cow()` /
+`to_string()` / `is_quoted()` on what is left -/
+
+inductive UqState where
+  | notStarted | notQuoted | quoted
+  deriving DecidableEq, Repr
+
+/-- `Unquote { inner: Chars, state }` -/
+structure Uq where
+  inner : List Char
+  state : UqState
+  deriving DecidableEq, Repr
+
+namespace Uq
+
+def new (s : List Char) : Uq := ⟨s, .notStarted⟩
+
+/-- the `Quoted` arm of `next` -/
+def nextQuoted : List Char → Option Char × Uq
+  | [] => (none, ⟨[], .quoted⟩)
+  | c :: cs =>
+    if c = '"' then (none, ⟨[], .quoted⟩)       -- finished: `self.inner = "".chars()`
+    else if c = '\\' then
+      match cs with
+      | [] => (none, ⟨[], .quoted⟩)
+      | d :: cs' => (some d, ⟨cs', .quoted⟩)
+    else (some c, ⟨cs, .quoted⟩)
+
+/-- `Iterator::next` -/
+def next (u : Uq) : Option Char × Uq :=
+  match u.state with
+  | .notStarted =>
+    match u.inner with
+    | [] => (none, ⟨[], .notQuoted⟩)
+    | c :: cs => if c = '"' then nextQuoted cs else (some c, ⟨cs, .notQuoted⟩)
+  | .notQuoted =>
+    match u.inner with
+    | [] => (none, u)
+    | c :: cs => (some c, ⟨cs, .notQuoted⟩)
+  | .quoted => nextQuoted u.inner
+
+/-- `k` calls of `next` (results discarded) -/
+def advance : Nat → Uq → Uq
+  | 0, u => u
+  | k + 1, u => advance k u.next.2
+
+/-- `is_quoted()` -/
+def isQuoted (u : Uq) : Bool :=
+  match u.state with
+  | .notStarted => Link.isQuoted u.inner
+  | .notQuoted => false
+  | .quoted => true
+
+/-- what the iterator yields from here on (`to_string()`, `collect()`) -/
+def rest (u : Uq) : List Char :=
+  match u.state with
+  | .notStarted => unquote u.inner
+  | .notQuoted => u.inner
+  | .quoted => unqQuoted u.inner
+
+/-- `to_cow()` in any state -/
+def toCow (u : Uq) : List Char :=
+  if u.isQuoted then
+    if u.inner.contains '\\' then u.rest
+    else
+      let body := match u.state with
+        | .notStarted => u.inner.drop 1
+        | _ => u.inner
+      body.takeWhile (· ≠ '"')
+  else u.inner
+
+end Uq
+
 /-! ### writer -/
 
 /-- the writer and its sink: `calls` counts the sink calls issued so far, a call
